@@ -340,7 +340,7 @@ theorem posInv_step (c : TokenCfg) (s : DState) (op : Op) (hu : op.isUser = true
       obtain ⟨_, ck, p, bids, hck, hget, _, _, fills, _, _, _, _, _, _, hs'⟩ := sell_ok hb
       simp only [step, hb]
       rw [hs']
-      show PosInv { s with positions := _, cash := _, book := _, actions := _ }
+      show PosInv { s with positions := _, cash := _, book := _, actions := _, cache := _ }
       unfold PosInv
       simp only []
       split
